@@ -79,7 +79,7 @@ def solve_and_judge(case, which, in_situ=True):
     if any(z['gov'].get('asset_markets_in') and z['gov'].get('deposits') for z in spec['zones']):
         rec.count('models.judged.with_deposit_market_away_from_its_issuer')
     if spec['imports'] and case.get('build_opts', {}).get('interleave_model'):
-        rec.count('models.judged.with_cross_zone_supplier_and_interleaved_models', 'models.judged.with_run_via_steps')
+        rec.count('models.judged.with_cross_zone_supplier_and_interleaved_models')
     rec.count('exact.variables', len(E.names))
     rec.count('exact.frozen_equations', len(E.frozen))
     nontrivial = J.max_flow > Fraction(1, 1000)
@@ -138,7 +138,7 @@ class C01(object):
     required_counters = ('models.judged', 'money_created_or_destroyed_in_zone.judged',
                          'sector_ledger_not_sum_of_declared_flows.judged', 'insitu.addcashflow.post_evaluated',
                          'models.judged.with_interleave_model', 'models.judged.with_deposit_market_away_from_its_issuer',
-                         'models.judged.with_cross_zone_supplier_and_interleaved_models')
+                         'models.judged.with_cross_zone_supplier_and_interleaved_models', 'models.judged.with_run_via_steps')
     which = ('zone', 'ledger')
 
     def n_cases(self, tier):
